@@ -48,7 +48,7 @@ def gen_geom_case(ch: Chooser, tier: str, prop: str, *, poles: str = "maybe") ->
         n_st = ch.rint(0, 6)
         g.program(n_in, n_st, max_depth=ch.rint(0, 2))
         occ = Occupancy()
-        layout = ch.weighted([(4, "near"), (3, "far"), (2, "negative"), (3, "row"), (2, "mixed")])
+        layout = ch.weighted([(4, "near"), (3, "far"), (2, "negative"), (3, "row"), (2, "mixed"), (3, "func")])
         n_ent = ch.rint(1, 8)
         uid = 0
 
@@ -82,6 +82,36 @@ def gen_geom_case(ch: Chooser, tier: str, prop: str, *, poles: str = "maybe") ->
             for i in range(n):
                 occ.take("small-lamp", x0 + i * dx, y0)
             n_ent = ch.rint(0, 3)
+        if layout == "func":
+            # entities placed by helper functions: every call contributes its own entity.  Callee and
+            # caller share parameter names, arguments are arithmetic on them, and a top-level int of
+            # the same name is used as a coordinate after a call
+            proto = ch.pick(["small-lamp", "small-lamp", "steel-chest", "inserter"])
+            wired_f = proto != "steel-chest" and ch.chance(1, 2)
+            fbody = [["place", "l", proto, ["var", "x"], ["var", "y"], None]]
+            params = [["int", "x"], ["int", "y"]]
+            if wired_f:
+                params.append(["Signal", "s"])
+                fbody.append(["enable", "l", ["bin", ch.pick(lang.CMP_OPS), ["var", "s"], ["var", "x"]]])
+            c.stmts.append(["func", "put", params, fbody, None])
+            extra = [g.sig_leaf()] if wired_f else []
+            nested = ch.chance(2, 3)
+            if nested:
+                dxs = sorted({ch.rint(1, 4) for _ in range(ch.rint(2, 3))})
+                rbody = [["expr", ["call", "put", [["bin", "+", ["var", "x"], ["lit", d, 10]],
+                                                   ["bin", "+", ["var", "y"], ["lit", ch.pick([0, 0, 2]), 10]]]
+                                   + ([["var", "s"]] if wired_f else [])]] for d in dxs]
+                c.stmts.append(["func", "row", [list(p_) for p_ in params], rbody, None])
+            top_x = ch.chance(1, 2)
+            if top_x:
+                c.stmts.append(["decl", "int", "x", ["lit", ch.rint(-6, 6), 10]])
+            for ci in range(ch.rint(1, 3)):
+                fx, fy = ch.rint(-12, 30), ch.rint(-20, -8) - 3 * ci
+                c.stmts.append(["expr", ["call", "row" if (nested and ch.chance(2, 3)) else "put",
+                                         [["lit", fx, 10], ["lit", fy, 10]] + extra]])
+            if top_x:
+                c.stmts.append(["place", "after", "small-lamp", ["var", "x"], ["lit", 12, 10], None])
+            n_ent = ch.rint(0, 2)
         for _ in range(n_ent):
             wired = ch.chance(2, 3)
             proto = ch.pick(PROTOS_WIRED if wired else PROTOS_ANY)
@@ -116,6 +146,16 @@ def gen_geom_case(ch: Chooser, tier: str, prop: str, *, poles: str = "maybe") ->
             continue
         if not it.places:
             continue
+        if layout == "func":
+            occ2 = Occupancy()
+            clash = False
+            for p_ in it.places:
+                if not occ2.free(p_.proto, p_.x, p_.y):
+                    clash = True
+                    break
+                occ2.take(p_.proto, p_.x, p_.y)
+            if clash:
+                continue
         break
     else:
         raise RuntimeError("geometry generator failed")
